@@ -131,8 +131,8 @@ PROPS = {
         "theorems": ["ArgMapper.C15.values_roundtrip", "ArgMapper.C15.lookup_named", "ArgMapper.C15.lookup_typed", "ArgMapper.C15.lookup_typed_sub", "ArgMapper.C15.signature_roundtrip", "ArgMapper.C15.signature_positional_pre_repair", "ArgMapper.C15.splitOn_char", "ArgMapper.C15.tag_roundtrip", "ArgMapper.C15.tagRoundTrips_of_ok", "ArgMapper.C15.checked_rejects", "ArgMapper.C15.checked_values_roundtrip"],
         "modules": ["ArgMapper.Props.C15", "ArgMapper.Props.C15b"], "facts": {"vsetValidates": "true"},
         "rule": "vset: at least one value; sig: positional signatures.",
-        "runs": {"quick": [fam("vset", 1500, 6), fam("sig", 1000, 5), fam("call", 500, 0, "general"), fam("hist", 400, 0)],
-                 "thorough": [fam("vset", 100000, 6), fam("sig", 50000, 5), fam("call", 60000, 0, "general"), fam("hist", 30000, 0)]},
+        "runs": {"quick": [fam("vset", 1500, 6), fam("sig", 1000, 5), fam("call", 500, 0, "general"), fam("hist", 400, 0), fam("result", 1000, 5)],
+                 "thorough": [fam("vset", 100000, 6), fam("sig", 50000, 5), fam("call", 60000, 0, "general"), fam("hist", 30000, 0), fam("result", 50000, 5)]},
     },
     "C16": {
         "claim": "Theorems about the option builder: every key holds its last write, names are matched through lower-casing, call options override defaults, nil values write nothing, a nil option yields the dedicated error, permuting options with pairwise distinct keys leaves the maps unchanged. Tied to the code by comparing the real builder's four maps (hook VerifBuilder) with the model over random option lists with casings, duplicates, default/call splits and a random permutation.",
